@@ -57,6 +57,9 @@ func c16Tree(cls string) []fsx.Entry {
 		return []fsx.Entry{f("b0.bin", 1, 32767), f("b1.bin", 2, 32768), f("b2.bin", 3, 32769), f("b3.bin", 4, 70000), f("b4.bin", 5, 1), {Path: "EMPTYDIR", Dir: true}, {Path: "DIR", Dir: true}, f("DIR/b5.bin", 6, 65536)}
 	case "nested":
 		return []fsx.Entry{{Path: "one", Dir: true}, {Path: "one/two", Dir: true}, {Path: "one/two/three", Dir: true}, f("one/two/three/deep file.txt", 1, 2000), f("one/x.y", 2, 3), f("top level file with a long name.data", 3, 5000), {Path: "EMPTYDIR", Dir: true}, {Path: "DIR", Dir: true}, f("DIR/z", 4, 100)}
+	case "nearmiss": // names that only resemble the documented excluded names (other case, a suffix): they are ordinary entries
+		return []fsx.Entry{f("keep.txt", 1, 100), {Path: "Lost+Found", Dir: true}, f("Lost+Found/ticket.txt", 2, 50), f(".ds_store", 3, 20), {Path: "DIR", Dir: true}, f("DIR/.DS_Store.bak", 4, 10), f("DIR/kept.bin", 5, 700),
+			{Path: "DIR/system volume information", Dir: true}, f("DIR/system volume information/x", 6, 5), f("lost+found.txt", 7, 9), {Path: "EMPTYDIR", Dir: true}}
 	default: // excluded names at the top and nested, as file and as directory
 		return []fsx.Entry{f("keep.txt", 1, 100), {Path: "lost+found", Dir: true}, f("lost+found/orphan", 2, 50), f(".DS_Store", 3, 20), {Path: "DIR", Dir: true}, f("DIR/.DS_Store", 4, 10), f("DIR/kept.bin", 5, 700),
 			{Path: "DIR/System Volume Information", Dir: true}, f("DIR/System Volume Information/x", 6, 5), {Path: "EMPTYDIR", Dir: true}}
@@ -244,10 +247,12 @@ func c16Mutate(dst filesystem.FileSystem, mut string, tree []fsx.Entry) (bool, e
 		}
 		return true, rewrite("zz-extra-dir/inside", []byte("extra"))
 	case "extra-excluded-dir":
-		if err := dst.Mkdir("lost+found"); err != nil {
+		// inside DIR: no tree has an entry there whose name differs from lost+found only in case (on a
+		// case-insensitive destination that would be the same directory, and not an excluded one)
+		if err := dst.Mkdir("DIR/lost+found"); err != nil {
 			return true, err
 		}
-		return true, rewrite("lost+found/recovered", []byte("#12"))
+		return true, rewrite("DIR/lost+found/recovered", []byte("#12"))
 	}
 	return false, fmt.Errorf("unknown mutation %s", mut)
 }
